@@ -23,6 +23,11 @@ NS = {"python": ["var", "func"], "fortran": ["var", "func", "refcount", "unique"
 STRIP = ["self._functions.", "self.", "dagrt_state%"]
 
 
+def _is_state(k):
+    from dagrt.utils import is_state_variable
+    return is_state_variable(k)
+
+
 def run_history(target, hist, pool):
     """Replay one history into a fresh real name manager.  Returns the recorded steps."""
     if target == "python":
@@ -56,7 +61,12 @@ def run_history(target, hist, pool):
             outs.append(None)                     # echoes of the generator's own identifiers are not IR names
             continue
         try:
-            if ns == "var":
+            if ns == "var" and target == "fortran" and len(outs) % 3 == 2 and not k.lower().startswith("dagrt_") \
+                    and not _is_state(k):
+                # the rarely used explicit-prefix form of the same lookup: the prefix only seeds a NEW identifier,
+                # the IR name stays the key (same name -> same identifier whichever form asked first)
+                out = mgr.name_local(k, prefix="aux_")
+            elif ns == "var":
                 out = mgr[k]
             elif ns == "func":
                 out = mgr.name_function(k)
